@@ -312,6 +312,7 @@ type Ctx struct {
 	hashes   map[uint64]struct{}
 	vioSeen  map[string]int
 	sampleN  int64
+	held     []heldResult
 	curCase  *Case
 	Scratch  map[string]interface{} // per-shard caches owned by monitors
 }
@@ -577,6 +578,56 @@ func trimStack(st []byte) string {
 		lines = lines[:40]
 	}
 	return strings.Join(lines, "\n")
+}
+
+// ---- held results ----------------------------------------------------------
+
+type heldResult struct {
+	label string
+	data  []byte
+	snap  []byte
+	k     *Case
+}
+
+// Hold remembers a byte slice RETURNED by the library (not a copy) together with
+// a snapshot. Every later Hold first verifies that all slices still held are
+// unchanged: a function that hands out memory it reuses later (pooled or
+// package-level buffers) corrupts an earlier result when it is called again.
+// The ring keeps the last 6 results.
+func (c *Ctx) Hold(k *Case, label string, data []byte) {
+	for _, h := range c.held {
+		if !bytesEqual(h.data, h.snap) {
+			c.Fail(h.k, "earlier-result-changed:"+h.label, fmt.Sprintf("the bytes returned by %s changed after a later library call (%s): %x -> %x", h.label, label, clip(h.snap), clip(h.data)))
+			copy(h.snap, h.data)
+		}
+	}
+	if len(data) == 0 {
+		return
+	}
+	kc := *k
+	c.held = append(c.held, heldResult{label: label, data: data, snap: append([]byte(nil), data...), k: &kc})
+	if len(c.held) > 6 {
+		c.held = c.held[1:]
+	}
+}
+
+func clip(b []byte) []byte {
+	if len(b) > 48 {
+		return b[:48]
+	}
+	return b
+}
+
+func bytesEqual(a, b []byte) bool {
+	if len(a) != len(b) {
+		return false
+	}
+	for i := range a {
+		if a[i] != b[i] {
+			return false
+		}
+	}
+	return true
 }
 
 // ---- units and properties --------------------------------------------------
